@@ -2,7 +2,7 @@
 import itertools
 import sys
 
-from mc import core, lib
+from mc import core, hist, lib
 from scoda.elements.message import Message
 from scoda.enumerations.message_type import MessageType as MT
 from scoda.misc.music_theory import Key
@@ -14,7 +14,7 @@ RULE = ("ALL words of relative messages up to the length bound over the symbol a
         "pitches, wait 1/2, two time signatures, two key signatures), ill-formed ones included; distinct = distinct "
         "words; non-trivial = the word contains a re-trigger, orphan, unclosed note, nesting or a repeated signature")
 ASSUMPTIONS = ["fragmentation of rests into wait messages and the velocity a fused note keeps are not demanded"]
-REQUIRED_FLAGS = ["retrigger", "orphan_off", "unclosed_on", "nested", "repeated_signature", "balanced_word_roll_compared",
+REQUIRED_FLAGS = ["after_history", "aliased_messages_inside_sequence", "retrigger", "orphan_off", "unclosed_on", "nested", "repeated_signature", "balanced_word_roll_compared",
                   "pitch_equals_channel_number", "trailing_wait"]
 
 
@@ -44,9 +44,23 @@ def units(ctx):
         for a in ctx["syms_b"]:
             for b in ctx["syms_b"]:
                 yield ("pre", "b", a, b)
+    yield from hist.hist_units()
+    for a in ctx["syms"][-6:] + ctx["syms"][:2]:
+        yield ("aliased", a)
 
 
 def gen_cases(unit, ctx):
+    if unit[0] == "hist":
+        for h in hist.hist_of_unit(unit):
+            yield {"seed": unit[1], "build": unit[2], "hist": h}
+        return
+    if unit[0] == "aliased":
+        # words in which every occurrence of a symbol is THE SAME Message object (what concatenating a motif twice gives)
+        syms = ctx["syms"]
+        for k in (1, 2, 3):
+            for rest in itertools.product(["w1", "w2", "ts34", syms[0], syms[len(syms) // 2 - 3]], repeat=k):
+                yield {"word": [unit[1]] + list(rest) + [unit[1]], "aliased": True}
+        return
     syms = ctx["syms"] if unit[1] == "a" else ctx["syms_b"]
     maxlen = ctx["maxlen"] if unit[1] == "a" else 4
     if unit[0] == "short":
@@ -120,11 +134,25 @@ def analyse(word):
 
 def check_case(case, ctx):
     R = core.Res()
-    word = case["word"]
-    facts, balanced, roll_in, dur_in = analyse(word)
-    R.flags.extend(sorted(facts))
-    R.nontrivial = bool(facts - {"pitch_equals_channel_number", "trailing_wait"})
-    s = Sequence(relative_sequence=RelativeSequence([mk(x) for x in word]))
+    if "hist" in case:
+        live = hist.live_case(case, R, 60, 0, 1, hp=40)
+        if live is None:
+            return R
+        s, notes, events, dur_in = live
+        facts, balanced = set(), True
+        roll_in = lib.roll_of_notes(lib.desc_notes(notes))
+        word = None
+    else:
+        word = case["word"]
+        facts, balanced, roll_in, dur_in = analyse(word)
+        R.flags.extend(sorted(facts))
+        R.nontrivial = bool(facts - {"pitch_equals_channel_number", "trailing_wait"})
+        if case.get("aliased"):
+            shared = {}
+            s = Sequence(relative_sequence=RelativeSequence([shared.setdefault(x, mk(x)) for x in word]))
+            R.flags.append("aliased_messages_inside_sequence")
+        else:
+            s = Sequence(relative_sequence=RelativeSequence([mk(x) for x in word]))
     try:
         s.normalise()
         stream, dur = lib.rel_stream(s)
